@@ -341,7 +341,7 @@ func (g *G) addDependent(bs *schema.BlockSchema, depth int) {
 		dk := schema.DependencyKeys{}
 		k := DepKey{Parent: -1, L2Val: -1}
 		for _, li := range info.LabelIdx {
-			v := fmt.Sprintf("lv%d", g.pick(3))
+			v := DepLabelValue(g.pick(3))
 			dk.Labels = append(dk.Labels, schema.LabelDependent{Index: li, Value: v})
 			k.LabelVals = append(k.LabelVals, v)
 		}
@@ -476,6 +476,11 @@ func (g *G) addAddress(bs *schema.BlockSchema) {
 		name := g.id("type")
 		bs.Body.Attributes[name] = &schema.AttributeSchema{IsOptional: true, Constraint: schema.TypeDeclaration{}, Description: g.desc("typedecl")}
 		ad.AsTypeOf = &schema.BlockAsTypeOf{AttributeExpr: name}
+		if !g.O.NoOddities && g.coin(0.3) {
+			// the block is typed by an attribute its body schema does not declare
+			// (passes schema validation; the configuration still writes the attribute)
+			delete(bs.Body.Attributes, name)
+		}
 	}
 	if !ad.AsReference && !ad.BodyAsData && !ad.DependentBodyAsData && ad.AsTypeOf == nil && !ad.SupportUnknownNestedRefs {
 		ad.AsReference = true
@@ -498,6 +503,10 @@ func (g *G) Root() *schema.BodySchema {
 		for i := 0; i < nb; i++ {
 			b.Blocks[g.id("blk")] = g.Block(2, true)
 		}
+		if !g.O.NoOddities && !g.O.Simple && g.coin(0.1) {
+			// the root body itself is targetable
+			b.TargetableAs = schema.Targetables{{Address: lang.Address{lang.RootStep{Name: g.id("rootself")}}, ScopeId: g.scope(), AsType: cty.String, Description: g.desc("rootself")}}
+		}
 		if err := b.Validate(); err != nil {
 			g.Rejected++
 			g.deps = nil
@@ -505,4 +514,13 @@ func (g *G) Root() *schema.BodySchema {
 		}
 		return b
 	}
+}
+
+// DepLabelValue is the i-th value a dependency-key label takes. One of them
+// holds characters that JSON escapes and Go quoting does not.
+func DepLabelValue(i int) string {
+	if i == 2 {
+		return "l&<2>"
+	}
+	return fmt.Sprintf("lv%d", i)
 }
